@@ -40,6 +40,17 @@
 (*                 n > 0 = at most n lists are kept, a miss on a full      *)
 (*                 cache is served through one scratch slot that the next  *)
 (*                 miss overwrites (a handle to it dangles)                *)
+(*   FailKeep    : a shaping call that fails half-way (a lookup of the    *)
+(*                 `rvrn` stage does not parse) leaves working state      *)
+(*                 behind in the layout cache that the next call through  *)
+(*                 the same stage picks up (the glyph origins saved for   *)
+(*                 the stage are not restored); in the code and in the    *)
+(*                 design a failing call leaves nothing but filled memo   *)
+(*                 slots, whose content does not depend on the failure    *)
+(*   RegionMemo  : the scalar of a variation region of the GDEF item      *)
+(*                 variation store is memoised inside the cached GDEF     *)
+(*                 table without the tuple in its key; in the code and in *)
+(*                 the design nothing that depends on the tuple is kept   *)
 (* The caches are UNBOUNDED MAPS: any bound, eviction or slot reuse in the *)
 (* implementation is a behaviour this model does not have.                 *)
 (***************************************************************************)
@@ -52,7 +63,9 @@ CONSTANTS CodeKeys,      \* BOOLEAN
           PosKeyMode,    \* "abs" in the code and in the design
           IdxKeyMode,    \* "abs" in the code and in the design
           ImgKeepMode,   \* "none" in the code and in the design
-          LookupsCap     \* 0 in the code and in the design
+          LookupsCap,    \* 0 in the code and in the design
+          FailKeep,      \* BOOLEAN, FALSE in the code and in the design
+          RegionMemo     \* BOOLEAN, FALSE in the code and in the design
 
 \* ---- the font ------------------------------------------------------------
 \* A font descriptor is the part of the font's content the cache model has to know:
@@ -72,6 +85,19 @@ CONSTANTS CodeKeys,      \* BOOLEAN
 \*             a bit set: 1 = SVG, 2 = CBDT/CBLC, 4 = sbix, 8 = EBDT/EBLC - the order of precedence of
 \*             Font::embedded_images; an image filter is a bit set of the same kinds
 \*   sub     : sub-family (which generator of histories runs on it; the model ignores it)
+\* Optional fields (fonts of the `var` family; absent = the default):
+\*   fv      : FALSE = the GSUB has no FeatureVariations, so no lookup list depends on the tuple (default TRUE:
+\*             the most pessimistic font)
+\*   fvt     : GSUB and GPOS have one FeatureVariations record; the tuples that satisfy its condition set.  A lookup
+\*             with a field `alt` belongs to the default feature table only ("dflt") or to the substituted one ("alt")
+\* Optional fields of a lookup:
+\*   scr     : the scripts whose language system has the lookup's feature (default: every script)
+\*   regs    : GPOS: the regions of the GDEF item variation store that the VariationIndex tables of the
+\*             lookup's value records refer to (default none: positioning does not depend on the tuple)
+\*   typ "missing" (the feature names a lookup index the lookup list does not have) and "badtype" (the Lookup
+\*             table has a lookup type that does not exist): using the lookup fails, on every Font object alike.
+\*             "badcov" (the sub-table's Coverage does not parse) does NOT fail: allsorts skips a sub-table
+\*             that does not parse, the lookup is stored without it and nothing enters the ReadCache
 Range(s) == {s[i] : i \in DOMAIN s}
 IsDamaged(font, k) == k \in Range(font.damaged)
 
@@ -90,8 +116,11 @@ IsDamaged(font, k) == k \in Range(font.damaged)
 \*  scratch : the list last served through the scratch slot of a bounded cached_lookups (LookupsCap > 0 only)
 SVG == 1  CBDT == 2  SBIX == 4  EBDT == 8
 DefaultFilter == 7        \* Font::new: SVG | SBIX | CBDT
+\*  leftover : FailKeep only: the `rvrn` stage of the last shaping call failed and its working state is still there
+\*  regions  : RegionMemo only: function region -> term of the memoised scalar
 InitStateOf(font) == [font |-> font, glyph |-> <<>>, images |-> <<>>, lookups |-> <<>>, supported |-> <<>>, lazy |-> <<>>,
-                      parsed |-> <<>>, objs |-> <<>>, filter |-> DefaultFilter, scratch |-> <<>>]
+                      parsed |-> <<>>, objs |-> <<>>, filter |-> DefaultFilter, scratch |-> <<>>,
+                      leftover |-> FALSE, regions |-> <<>>]
 \* the most pessimistic intact font: it has every image table, so every filter may select another one
 PlainFont == [fam |-> "intact", damaged |-> <<>>, lookups |-> <<>>, imgs |-> 15, sub |-> ""]
 InitState == InitStateOf(PlainFont)
@@ -126,7 +155,11 @@ ImagesNow(st) == LET s == Sel(FontImgs(st.font), st.filter) IN
                  IF s # 0 /\ IsDamaged(st.font, "images") THEN ImgErr ELSE s
 ImagesStored(v) == IF v = ImgAbsent THEN 0 ELSE v
 \* region of the design space as far as GSUB FeatureVariations distinguish it
-FV(t) == IF HasFV THEN t ELSE "n/a"
+FontFV(font) == IF "fv" \in DOMAIN font THEN font.fv ELSE TRUE
+\* `fvt` (fonts of the var family with FeatureVariations): the tuples that satisfy the condition set of the one
+\* FeatureVariations record - the lookup lists then depend on the tuple only through "alt" / "dflt"
+FV(font, t) == IF ~(HasFV /\ FontFV(font)) THEN "n/a"
+               ELSE IF "fvt" \in DOMAIN font THEN (IF t \in Range(font.fvt) THEN "alt" ELSE "dflt") ELSE t
 
 \* has_embedded_images()/lookup_glyph_image(): the image tables are selected on first use
 \* returns [st, val, stale]
@@ -192,22 +225,22 @@ MapText(st, text, pres) ==
            b == MapText(a.st, Tail(text), pres) IN
        [st |-> b.st, val |-> <<a.val>> \o b.val, stale |-> a.stale \cup b.stale]
 
-LookupsTerm(s, l, m, t) == <<"lookups", s, l, m, FV(t)>>
-LookupsKey(s, l, m, t)  == IF CodeKeys THEN <<s, l, m>> ELSE <<s, l, m, FV(t)>>
+LookupsTerm(font, s, l, m, t) == <<"lookups", s, l, m, FV(font, t)>>
+LookupsKey(font, s, l, m, t)  == IF CodeKeys THEN <<s, l, m>> ELSE <<s, l, m, FV(font, t)>>
 
 \* get_lookups_cache_index hands out an INDEX into cached_lookups; the list is read afterwards.  The model's
 \* handle is the key itself (an unbounded map never moves an entry); with LookupsCap > 0 a miss on a full cache
 \* gets the scratch slot.  returns [st, h]
 FetchLookups(st, s, l, m, t) ==
-  LET k == LookupsKey(s, l, m, t) IN
+  LET k == LookupsKey(st.font, s, l, m, t) IN
   IF k \in DOMAIN st.lookups THEN [st |-> st, h |-> <<"key", k>>]
   ELSE IF LookupsCap = 0 \/ Cardinality(DOMAIN st.lookups) < LookupsCap
-       THEN [st |-> [st EXCEPT !.lookups = Put(@, k, LookupsTerm(s, l, m, t))], h |-> <<"key", k>>]
-       ELSE [st |-> [st EXCEPT !.scratch = LookupsTerm(s, l, m, t)], h |-> <<"scratch">>]
+       THEN [st |-> [st EXCEPT !.lookups = Put(@, k, LookupsTerm(st.font, s, l, m, t))], h |-> <<"key", k>>]
+       ELSE [st |-> [st EXCEPT !.scratch = LookupsTerm(st.font, s, l, m, t)], h |-> <<"scratch">>]
 \* cached_lookups.borrow()[index]; returns [val, stale]
 DerefLookups(st, h, s, l, m, t) ==
   LET v == IF h[1] = "key" THEN st.lookups[h[2]] ELSE st.scratch IN
-  [val |-> v, stale |-> IF v = LookupsTerm(s, l, m, t) THEN {}
+  [val |-> v, stale |-> IF v = LookupsTerm(st.font, s, l, m, t) THEN {}
                         ELSE IF h[1] = "key" THEN {"lookupsIndex.tuple"} ELSE {"lookups.capacity"}]
 \* fetch and read at once (every caller but the fraction path)
 ReadLookups(st, s, l, m, t) ==
@@ -253,13 +286,17 @@ ReadObjs(st, tbl, os) ==
        [st |-> r.st, val |-> <<t>> \o r.val,
         stale |-> (IF t # ObjTerm(o) THEN {"readCache.position"} ELSE {}) \cup r.stale]
 
+Broken(L) == L.typ \in {"missing", "badtype"}
+Failed(v) == v # <<>> /\ v[Len(v)][1] = "ERR"
 RECURSIVE UseLookup(_, _, _)
 RECURSIVE UseSeq(_, _, _)
 \* lookup_cache_gsub / lookup_cache_gpos followed by the application of the lookup; the lookups its
 \* rules name are used in turn (the texts shaped on these fonts make every rule match)
 UseLookup(st, tbl, idx) ==
-  LET L     == LookupAt(st.font, tbl, idx)
-      k     == <<tbl, IdxKey(idx)>>
+  LET L     == LookupAt(st.font, tbl, idx) IN
+  \* a lookup that does not parse: the error is reported and nothing is stored (the next use fails the same way)
+  IF Broken(L) THEN [st |-> st, val |-> <<<<"lookup", idx, L.typ>>, <<"ERR">> >>, stale |-> {}] ELSE
+  LET k     == <<tbl, IdxKey(idx)>>
       hit   == k \in DOMAIN st.parsed
       r     == IF hit THEN [st |-> st, val |-> <<>>, stale |-> {}] ELSE ReadObjs(st, tbl, L.objs)
       term  == IF hit THEN st.parsed[k] ELSE <<"lookup", idx, r.val>>
@@ -269,18 +306,52 @@ UseLookup(st, tbl, idx) ==
                ELSE IF term # LookupTruth(L) THEN {"readCache.position"} ELSE {}
       n     == UseSeq(st1, tbl, L.nested) IN
   [st |-> n.st, val |-> <<term>> \o n.val, stale |-> here \cup n.stale]
+\* the first lookup that fails ends the stage (`?`): the lookups after it are not touched
 UseSeq(st, tbl, idxs) ==
   IF idxs = <<>> THEN [st |-> st, val |-> <<>>, stale |-> {}]
-  ELSE LET a == UseLookup(st, tbl, idxs[1])
-           b == UseSeq(a.st, tbl, Tail(idxs)) IN
-       [st |-> b.st, val |-> a.val \o b.val, stale |-> a.stale \cup b.stale]
+  ELSE LET a == UseLookup(st, tbl, idxs[1]) IN
+       IF Failed(a.val) THEN a
+       ELSE LET b == UseSeq(a.st, tbl, Tail(idxs)) IN
+            [st |-> b.st, val |-> a.val \o b.val, stale |-> a.stale \cup b.stale]
 
 \* the lookups of `tbl` activated by a set of features, in lookup-index order
-ActiveSet(font, tbl, feats) == {L.idx : L \in {M \in Range(font.lookups) : M.tbl = tbl /\ M.feat \in Range(feats)}}
+InScript(L, s) == IF "scr" \in DOMAIN L THEN s \in Range(L.scr) ELSE TRUE
+InRegion(L, font, t) == IF "alt" \in DOMAIN L THEN L.alt = FV(font, t) ELSE TRUE
+ActiveSet(font, tbl, feats, s, t) ==
+  {L.idx : L \in {M \in Range(font.lookups) : M.tbl = tbl /\ M.feat \in Range(feats) /\ InScript(M, s) /\ InRegion(M, font, t)}}
 RECURSIVE Ascending(_)
 Ascending(S) == IF S = {} THEN <<>>
                 ELSE LET m == CHOOSE x \in S : \A y \in S : x <= y IN <<m>> \o Ascending(S \ {m})
-UseFeatures(st, tbl, feats) == UseSeq(st, tbl, Ascending(ActiveSet(st.font, tbl, feats)))
+UseFeatures(st, tbl, feats, s, t) == UseSeq(st, tbl, Ascending(ActiveSet(st.font, tbl, feats, s, t)))
+
+\* ---- the `rvrn` stage of gsub_apply_default (variation tuple given, Features::Mask) ------------------
+\* The lookup list of (script, lang, RVRN) is fetched and its lookups are applied before anything else; the glyph
+\* origins are saved before and restored after the stage (working state of ONE call).  A lookup that fails
+\* ends the whole GSUB stage of the call.
+RvrnOf(font, s, t) == Ascending(ActiveSet(font, "GSUB", <<"rvrn">>, s, t))
+RvrnStage(st, c) ==
+  LET lk    == ReadLookups(st, c.script, c.lang, "RVRN", c.tuple)
+      u     == UseSeq(lk.st, "GSUB", RvrnOf(st.font, c.script, c.tuple))
+      dirty == FailKeep /\ st.leftover /\ ~Failed(u.val) IN
+  [st |-> [u.st EXCEPT !.leftover = FailKeep /\ Failed(u.val)],
+   val |-> <<"rvrn", lk.val, u.val, IF dirty THEN "origins lost" ELSE "origins kept">>,
+   failed |-> Failed(u.val),
+   stale |-> lk.stale \cup u.stale \cup (IF dirty THEN {"scratch.failedCall"} ELSE {})]
+
+\* ---- GPOS value records with VariationIndex tables: deltas from the GDEF item variation store -----------
+\* adjustment = sum over the regions of scalar(region, tuple) x delta; nothing of it outlives the call
+RegsOf(L) == IF "regs" \in DOMAIN L THEN L.regs ELSE <<>>
+ScalarTerm(r, t) == <<"scalar", r, t>>
+RECURSIVE ReadRegions(_, _, _)
+ReadRegions(st, rs, t) ==
+  IF rs = <<>> THEN [st |-> st, val |-> <<>>, stale |-> {}]
+  ELSE LET r   == rs[1]
+           hit == RegionMemo /\ r \in DOMAIN st.regions
+           v   == IF hit THEN st.regions[r] ELSE ScalarTerm(r, t)
+           n   == ReadRegions(IF RegionMemo /\ ~hit THEN [st EXCEPT !.regions = Put(@, r, v)] ELSE st, Tail(rs), t) IN
+       [st |-> n.st, val |-> <<v>> \o n.val, stale |-> (IF v # ScalarTerm(r, t) THEN {"gdef.regionScalar"} ELSE {}) \cup n.stale]
+RECURSIVE RegsOfSeq(_, _, _)
+RegsOfSeq(font, tbl, idxs) == IF idxs = <<>> THEN <<>> ELSE RegsOf(LookupAt(font, tbl, idxs[1])) \o RegsOfSeq(font, tbl, Tail(idxs))
 
 Nothing(st) == [st |-> st, val |-> <<>>, stale |-> {}]
 
@@ -296,18 +367,26 @@ Shape(st, c) ==
       g4  == ReadLazy(g3.st, "morx")
       g5  == ReadLazy(g4.st, "kern")
       dc  == LookupGlyph(g5.st, "DC", "NotReq", "none")
-      sp  == IF g1.val # "ok" \/ c.custom THEN [st |-> dc.st, val |-> "n/a", stale |-> {}]
-             ELSE ReadSupported(dc.st, c.script, c.lang)
-      lk  == IF g1.val # "ok" THEN [st |-> sp.st, val |-> "no gsub", stale |-> {}]
-             ELSE IF c.custom THEN [st |-> sp.st, val |-> LookupsTerm(c.script, c.lang, c.mask, c.tuple), stale |-> {}]
+      \* gsub_apply_default under a tuple: the rvrn stage comes first; when it fails the GSUB stage is over
+      rv  == IF g1.val = "ok" /\ ~c.custom /\ c.tuple # "none" THEN RvrnStage(dc.st, c)
+             ELSE [st |-> dc.st, val |-> "n/a", failed |-> FALSE, stale |-> {}]
+      sp  == IF g1.val # "ok" \/ c.custom \/ rv.failed THEN [st |-> rv.st, val |-> "n/a", stale |-> {}]
+             ELSE ReadSupported(rv.st, c.script, c.lang)
+      lk  == IF g1.val # "ok" \/ rv.failed THEN [st |-> sp.st, val |-> "no gsub", stale |-> {}]
+             ELSE IF c.custom THEN [st |-> sp.st, val |-> LookupsTerm(st.font, c.script, c.lang, c.mask, c.tuple), stale |-> {}]
              ELSE IF c.frac THEN ReadLookupsFrac(sp.st, c.script, c.lang, c.mask, c.mask0, c.tuple)
              ELSE ReadLookups(sp.st, c.script, c.lang, c.mask, c.tuple)
-      sub == IF g1.val = "ok" THEN UseFeatures(lk.st, "GSUB", c.feats) ELSE Nothing(lk.st)
-      pos == IF g2.val = "ok" THEN UseFeatures(sub.st, "GPOS", c.feats) ELSE Nothing(sub.st) IN
-  [st |-> pos.st,
-   val |-> <<"shape", c.text, c.kern, <<g1.val, g2.val, g3.val, g4.val, g5.val>>, dc.val, sp.val, lk.val, sub.val, pos.val>>,
-   stale |-> g1.stale \cup g2.stale \cup g3.stale \cup g4.stale \cup g5.stale \cup dc.stale \cup sp.stale \cup lk.stale
-             \cup sub.stale \cup pos.stale]
+      sub == IF g1.val = "ok" /\ ~rv.failed THEN UseFeatures(lk.st, "GSUB", c.feats, c.script, c.tuple) ELSE Nothing(lk.st)
+      \* GPOS goes on whatever happened in GSUB (Font::shape reports the first error and forges ahead)
+      pidx == Ascending(ActiveSet(st.font, "GPOS", c.feats, c.script, c.tuple))
+      pos == IF g2.val = "ok" THEN UseSeq(sub.st, "GPOS", pidx) ELSE Nothing(sub.st)
+      \* the deltas of the value records: only under a tuple and with a GDEF
+      dl  == IF g2.val = "ok" /\ g3.val = "ok" /\ c.tuple # "none" /\ ~Failed(pos.val)
+             THEN ReadRegions(pos.st, RegsOfSeq(st.font, "GPOS", pidx), c.tuple) ELSE Nothing(pos.st) IN
+  [st |-> dl.st,
+   val |-> <<"shape", c.text, c.kern, <<g1.val, g2.val, g3.val, g4.val, g5.val>>, dc.val, rv.val, sp.val, lk.val, sub.val, pos.val, dl.val>>,
+   stale |-> g1.stale \cup g2.stale \cup g3.stale \cup g4.stale \cup g5.stale \cup dc.stale \cup rv.stale \cup sp.stale \cup lk.stale
+             \cup sub.stale \cup pos.stale \cup dl.stale]
 
 \* Font::vertical_advance: vmtx, then vhea; an error and an absent table both answer None
 VAdvance(st, c) ==
@@ -348,6 +427,7 @@ PureStep(st, c) == Step(st, c).ret = Fresh(st, c)
 StaleIffImpure(st, c) == (Step(st, c).stale # {}) <=> ~PureStep(st, c)
 
 AllCauses == <<"glyph.dottedCircle", "images.filter", "lookupsIndex.tuple", "lazy.failedLoad",
-               "readCache.position", "lookupCache.index", "supported.lang", "lookups.capacity">>
+               "readCache.position", "lookupCache.index", "supported.lang", "lookups.capacity",
+               "scratch.failedCall", "gdef.regionScalar">>
 CausesSeq(S) == SelectSeq(AllCauses, LAMBDA x : x \in S)
 =============================================================================
